@@ -334,7 +334,17 @@ def good_case(c):
 def canon_impl(c, o):
     if o and o[0] == "EXC":
         return o[3]
-    return [0, o[5], o[0], o[1], o[2], o[6], int(good_case(c))]
+    return [0, o[5], o[0], o[1], o[2], o[6], int(good_case(c)), int(in_history_class(c))]
+
+
+def in_history_class(c):
+    """the premises of the Coq theorems about whole histories (ansi_line_over_histories, section_below_intact_over_histories)
+    as this side expects them to hold: every generated message is good markup that does not end inside a tag and every frame
+    fits the width, so what decides is the format - one line on a plain ANSI output, any on a section"""
+    cfg = norm_cfg(c["cfg"])
+    if is_quiet(cfg["kind"]) or not is_ansi(cfg["kind"]) or is_section(cfg["kind"]):
+        return True
+    return cfg["fmt"] is None or "\n" not in fmt_string(CUSTOM[cfg["fmt"]])
 
 
 # ---- decoding a frame by its format ----
